@@ -253,6 +253,11 @@ func main() {
 			if raw {
 				stream = "ci-raw"
 			}
+			// three quarters of the histories carry the generation/uid the real REST strategies stamp
+			cs.Stamp = i%4 != 1
+			if cs.Stamp {
+				stream += "-stamped"
+			}
 			if i%10 == 7 {
 				cs.Skip = true
 				stream = "ci-skip-endpoints"
